@@ -248,20 +248,32 @@ def _is_struct_pat(p):
 
 WORLD = {}          # id(body) -> {def path: body} of the crate the body belongs to (registered by facts.Facts)
 _KNOWN_FNS = None
+_KNOWN_PARAMS = {}
 
 
 def known_functions():
-    global _KNOWN_FNS
+    global _KNOWN_FNS, _KNOWN_PARAMS
     if _KNOWN_FNS is None:
         import json
         import os
         p = os.path.join(os.path.dirname(os.path.dirname(os.path.abspath(__file__))), "tables", "functions.json")
         try:
             with open(p) as f:
-                _KNOWN_FNS = set(json.load(f)["functions"])
+                t = json.load(f)
+            _KNOWN_FNS = set(t["functions"])
+            _KNOWN_PARAMS = t.get("params", {})
         except OSError:
             _KNOWN_FNS = set()
     return _KNOWN_FNS
+
+
+def reviewed_param_name(fn, i, actual):
+    """Parameters are named as on the reviewed tree (by position): a renamed parameter changes no term."""
+    known_functions()
+    names = _KNOWN_PARAMS.get(fn)
+    if names and i < len(names) and names[i]:
+        return names[i]
+    return actual
 
 
 class AutoInline:
@@ -387,8 +399,11 @@ class SymX:
     # -- entry ---------------------------------------------------------------------------
     def run(self, node=None, params=None, env=None):
         st = St(env=dict(env or {}))
-        for p in (params if params is not None else self.body.get("params", [])):
-            self.bind(p, None, st, top=True)
+        for i, p in enumerate(params if params is not None else self.body.get("params", [])):
+            if params is None and p.get("k") == "bind" and "sub" not in p:
+                st.env[p["id"]] = ("var", reviewed_param_name(self.body.get("def"), i, p["name"]))
+            else:
+                self.bind(p, None, st, top=True)
         root = node if node is not None else self.body["body"]
         inner = async_inner(root)
         if inner is not None:
@@ -399,7 +414,31 @@ class SymX:
         outs = self.ev(root, st)
         for s, v in outs:
             self.done.append(Path(s, "fall", v))
+        if node is None and self.depth == 0:
+            self.done = self._expand_returned_map(self.done)
         return self.done
+
+    def _expand_returned_map(self, paths):
+        """A function that *returns* `x.map(f)` returns `Ok(f(v))` when x is Ok(v) and x's own error otherwise - the same two exits as
+        `let v = x?; Ok(f(v))` when the error types agree. Only the returned value is expanded (a stored `map` result stays a term)."""
+        out = []
+        for p in paths:
+            v = p.ret
+            w = v[1] if (isinstance(v, tuple) and v[0] == "await") else v
+            if p.kind in ("fall", "return") and is_call_t(w) and w[1] in ("std::result::Result::<T, E>::map", "std::option::Option::<T>::map") and len(w[2]) == 2:
+                x, f = w[2]
+                node = w[3] if len(w) > 3 else None
+                s = St(dict(p.env), list(p.conds), [t for t in p.trace if t is not w and not (is_call_t(t) and len(t) > 3 and t[3] is node and t[1] == w[1])])
+                s_ok = s.cond(("if", ("call", "<is_err>", [x], node), False))
+                applied = self.apply_fn(f, [("ok?", x)], s_ok, node)
+                if applied is not None:
+                    good = "std::prelude::v1::Ok" if w[1].startswith("std::result") else "std::prelude::v1::Some"
+                    for s2, val in applied:
+                        out.append(Path(s2, p.kind, ("ctor", good, [val])))
+                    out.append(Path(s.cond(("if", ("call", "<is_err>", [x], node), True)), "try", ("err?", x)))
+                    continue
+            out.append(p)
+        return out
 
     # -- patterns ------------------------------------------------------------------------
     def bind(self, p, val, st, top=False):
@@ -811,7 +850,12 @@ class SymX:
                     outs.append((s, v[2][0]))            # known to be the success side on this path (an inlined helper returned Ok(..))
                     continue
                 if head in ("Err", "None"):
-                    self.done.append(Path(s, "try", ("err?", v)))   # known to be the failure side
+                    # known to be the failure side; an inlined helper's own `?` exit is that callee's error, not a new one
+                    inner_err = v[2][0] if (head == "Err" and isinstance(v[2], list) and len(v[2]) == 1) else None
+                    if is_call_t(inner_err) and inner_err[1] == "<from-err>" and inner_err[2]:
+                        self.done.append(Path(s, "try", ("err?", inner_err[2][0])))
+                    else:
+                        self.done.append(Path(s, "try", ("err?", v)))
                     continue
                 if is_call_t(v) and v[1] in ("std::result::Result::<T, E>::map", "std::option::Option::<T>::map") and len(v[2]) == 2:
                     # `x.map(f)?` is `f(x?)`
@@ -897,9 +941,28 @@ class SymX:
         for s, v in self.ev(e["scrut"], st):
             earlier = []          # patterns of earlier *unguarded* arms: reaching a later arm proves these did not match
             earlier_guarded = []  # patterns of earlier guarded arms: a later arm is also reached when one matched and its guard failed
+            lit_arms = []         # (literal term) of earlier unguarded literal arms: `match x { 1 => a, _ => b }` is `if x == 1 { a } else { b }`
             for i, arm in enumerate(e["arms"]):
                 pr = show(arm["pat"])
-                s_i = s.cond(("match", v, pr, i, arm["pat"], earlier[:], earlier_guarded[:]))
+                ap = arm["pat"]
+                litv = None
+                if ap.get("k") == "pexpr" and isinstance(ap.get("e"), dict) and ap["e"].get("k") == "lit" and isinstance(ap["e"].get("v"), (int, bool)) and not ap["e"].get("neg"):
+                    litv = ("lit", ap["e"]["v"])
+                if litv is not None and "guard" not in arm and isinstance(v, tuple) and v[0] in ("call", "cast", "var", "field", "bin"):
+                    s_i = s
+                    for lj in lit_arms:
+                        s_i = s_i.cond(("if", ("bin", "Eq", v, lj), False))
+                    s_i = s_i.cond(("if", ("bin", "Eq", v, litv), True))
+                    outs.extend(self.ev(arm["body"], s_i))
+                    lit_arms.append(litv)
+                    earlier.append(pr)
+                    self._guard(len(outs))
+                    continue
+                s_i = s
+                if lit_arms and ap.get("k") in ("wild", "bind"):
+                    for lj in lit_arms:
+                        s_i = s_i.cond(("if", ("bin", "Eq", v, lj), False))
+                s_i = s_i.cond(("match", v, pr, i, arm["pat"], earlier[:], earlier_guarded[:]))
                 self.bind(arm["pat"], v, s_i)
                 if "guard" in arm:
                     for s_g, g in self.ev(arm["guard"], s_i):
